@@ -219,6 +219,11 @@ func c17Systematic() []ref.Expr {
 			&ref.Call{Fn: "g"}, &ref.Global{Name: "a.b.c"},
 			&ref.DataRef{Name: "x", Acc: []ref.Acc{{Kind: 0, Key: "a", NullSafe: true}, {Kind: 1, Index: 0, NullSafe: true}, {Kind: 2, Arg: &ref.Tern{C: y, A: one, B: two}, NullSafe: true}, {Kind: 2, Arg: one}, {Kind: 1, Index: 12}}},
 			&ref.DataRef{Name: "ij", Acc: []ref.Acc{{Kind: 0, Key: "foo"}}},
+			// keys spelled like keywords and function names, after a dot and after ?.
+			&ref.DataRef{Name: "row", Acc: []ref.Acc{{Kind: 0, Key: "null"}}}, &ref.DataRef{Name: "flags", Acc: []ref.Acc{{Kind: 0, Key: "not"}}}, &ref.DataRef{Name: "a", Acc: []ref.Acc{{Kind: 0, Key: "and"}, {Kind: 0, Key: "b"}}},
+			&ref.DataRef{Name: "a", Acc: []ref.Acc{{Kind: 0, Key: "true", NullSafe: true}, {Kind: 0, Key: "false"}}}, &ref.DataRef{Name: "a", Acc: []ref.Acc{{Kind: 0, Key: "or"}}}, &ref.DataRef{Name: "a", Acc: []ref.Acc{{Kind: 0, Key: "length"}, {Kind: 0, Key: "range"}}},
+			&ref.DataRef{Name: "a", Acc: []ref.Acc{{Kind: 0, Key: "ij"}}}, &ref.DataRef{Name: "a", Acc: []ref.Acc{{Kind: 0, Key: "x_1"}, {Kind: 0, Key: "_y"}, {Kind: 0, Key: "Z9"}}},
+			&ref.Binary{Op: "and", L: &ref.DataRef{Name: "a", Acc: []ref.Acc{{Kind: 0, Key: "not"}}}, R: &ref.Unary{Op: "not", X: &ref.DataRef{Name: "a", Acc: []ref.Acc{{Kind: 0, Key: "and"}}}}},
 			&ref.ListLit{Items: []ref.Expr{&ref.Tern{C: x, A: one, B: two}, &ref.Binary{Op: "?:", L: y, R: z}, &ref.Unary{Op: "-", X: one}}},
 		}
 		c17Sys = append(c17Sys, extra...)
